@@ -2,7 +2,8 @@
    input   R                                   reset to the initial state
            I <step> <ip> <opcode-hex> <name> <nops> <operand>... | p <v0> <v1> <v2> | c <arity> <locals> <isclos> | k <key> | d <delta>
            C <same fields>                     print the model instruction as Coq source text (no state change)
-   output  S <stack_size> <frame_count> <leak> <inv> <exact> <id>:<tag>:<rc>:<indeg> ...     state after the instruction
+   output  S <stack_size> <frame_count> <leak> <inv> <exact> <trap> <id>:<tag>:<rc>:<indeg> ...     state after the instruction
+             (trap = 1: the model says this opcode ends the run with trap_error after these ownership moves)
            U <why>      instruction outside the modelled fragment (state unchanged; caller stops comparing this program)
            X <UAF|FUEL|STUCK>
    Only parsing and the opcode-number -> constructor table live here; every ownership decision is in NV.Heap.Ops. *)
@@ -18,7 +19,7 @@ let nat s = nat_of_int (int_of_string s)
 let hint_int v = if String.length v > 1 && v.[0] = 'i' then Some (z_of_dec (String.sub v 1 (String.length v - 1))) else None
 let z0 = z_of_hex "0"
 let zidx v = match hint_int v with Some z -> z | None -> z0
-let print_state leak =
+let print_state leak trap =
   let m = !state in
   let rows = live_rows m in
   let b = Buffer.create 256 in
@@ -26,8 +27,9 @@ let print_state leak =
      (2 = not evaluated; the per-step comparison of ref_counts and in-degrees with the audited real VM does not depend on it) *)
   incr nstep;
   let full = List.length m.hp.cells <= 160 || !nstep land 63 = 0 in
-  Buffer.add_string b (Printf.sprintf "S %d %d %d %d %d" (List.length m.stack) (List.length m.frames) (if leak then 1 else 0)
-    (if not full then 2 else if inv_b m && intern_b m.hp then 1 else 0) (if not full then 2 else if exact_b m then 1 else 0));
+  Buffer.add_string b (Printf.sprintf "S %d %d %d %d %d %d" (List.length m.stack) (List.length m.frames) (if leak then 1 else 0)
+    (if not full then 2 else if inv_b m && intern_b m.hp then 1 else 0) (if not full then 2 else if exact_b m then 1 else 0)
+    (if trap then 1 else 0));
   List.iter (fun (((i, t), rc), ind) ->
     Buffer.add_string b (Printf.sprintf " %d:%d:%d:%d" (int_of_nat i) (int_of_nat t) (int_of_nat rc) (int_of_nat ind))) rows;
   Buffer.add_char b '\n'; print_string (Buffer.contents b)
@@ -75,7 +77,7 @@ let instr_of (op : int) (ops : ostring list) (p : ostring list) (c : ostring lis
   | 0x91 -> if callee_ok () then Some (IClosureCall (ar (), lc (), true)) else Some (IClosureCall (O, O, false))
   | 0x3d -> Some IRet
   | 0x3e -> if not (callee_ok ()) then Some INop
-            else if d <> 1 - int_of_string (List.nth c 0) then Some (IPopDrop (ar (), false))   (* the FFI call failed: arguments gone, no result *)
+            else if d <> 1 - int_of_string (List.nth c 0) then Some (IPopRelease (ar (), false))   (* the FFI call failed: the harness releases the popped arguments, no result is pushed *)
             else Some (ICallExtern (ar (), okey ()))
   | _ -> None
 (* Coq source text of an instruction (used by tools/gen/gen_churn14.py to translate logged streams into NV/gen/ChurnC14.v) *)
@@ -118,9 +120,10 @@ let () = iter_lines (fun line ->
        | None -> print_string ("U opcode " ^ oph ^ "\n")
        | Some i ->
          let leak = step_leaks i !state in
+         let trap = traps i !state in
          (match step i !state with
           | None -> print_string ("U state " ^ oph ^ "\n")
-          | Some (Ok m) -> state := m; print_state leak
+          | Some (Ok m) -> state := m; print_state leak trap
           | Some UAF -> print_string "X UAF\n"
           | Some OutOfFuel -> print_string "X FUEL\n"
           | Some Stuck -> print_string "X STUCK\n"))
